@@ -21,8 +21,11 @@ def gen_committed(r, depth=2):
             # other committed positions: the right side of either / implies, under map / discard / sub / spanned / text / ctxpush /
             # raw / reqif T / cond T
             inner = gen_committed(r, depth - 1)
-            w = r.below(10)
-            if w == 0: parts.append(['either', ['seq', 'C', 'C'], inner])
+            w = r.below(12)
+            if w >= 10: w = 0
+            if w == 0:
+                # the right side of either is a committed position; a left side that fails EARLIER, or LATER than the right one does
+                parts.append(['either', r.choice([['seq', 'C', 'C'], ['both', ['repeat', 1, 'inf', ['any', 'A', 'B']], ['one', 'C']], ['seq', 'A', 'B', 'C'], ['seq', 'A', 'A', 'C']]), inner])
             elif w == 1: parts.append([r.choice(['implies', 'consequent']), ['one', 'C'], inner])
             elif w == 2: parts.append([r.choice(['map', 'ctxpush']), 1 + r.below(8), inner])
             elif w == 3: parts.append(['discard', inner])
@@ -109,6 +112,14 @@ class C08(GProp):
                 g = r.choice([br, ['both', br, ['maybe', ['one', 'Semi']]], ['both', ['maybe', ['one', 'B']], br], ['listdef', br, 'Comma', ['Semi']]])
                 body = spangen.random_text(r, ['a', 'a', 'b', 'comma', 'sp', 'lk', 'rk'], r.below(5))
                 t = r.choice([[], ['b']]) + ['lk'] + body + ['rk'] + r.choice([[], ['semi'], ['comma', 'lk', 'a', 'rk']])
+            if i % 16 == 5:
+                # either(L, R): R (a committed position) recovers; both alternatives fail on the text, L at the same token as R,
+                # earlier, or LATER than R - whichever error the sink-less run returns must be the first diagnostic with a sink
+                x, y = r.choice([('B', 'C'), ('A', 'B'), ('B', 'A')])
+                R = [r.choice(c12mod.RCOMB), r.choice([['before', 'Semi'], ['beforeany', 'Semi', 'Comma'], ['after', 'Semi']]), ['seq', 'A', y]]
+                L = r.choice([['seq', 'A', x, 'C'], ['seq', 'A', x], ['both', ['one', 'A'], ['both', ['one', x], ['one', 'C']]], ['seq', 'C', 'C'], ['one', x]])
+                g = r.choice([['either', L, R], ['both', ['either', L, R], ['maybe', ['one', 'Semi']]], ['either', L, ['both', R, ['one', 'Semi']]]])
+                t = ['a', r.choice(['b', 'a', 'c']).lower(), r.choice(['b', 'a', 'semi', 'c'])] + spangen.random_text(r, ['semi', 'comma', 'a', 'sp'], 3)
             # make a good share of the texts valid for simple grammars
             n += 1
             pushed = [1 + r.below(4) for _ in range(r.below(3))]
